@@ -16,12 +16,18 @@
    (Spec/Bip341.v valid_hash_type).  Definitions only. *)
 From V Require Import Base.Prelude Base.Ints.
 
-(* None = the signature is invalid whatever the key; Some (sig64, hash_type) otherwise *)
+(* the hash types for which SigMsg is defined, other than SIGHASH_DEFAULT (which has no byte) *)
+Definition taproot_explicit_hash_type (ht : Z) : bool :=
+  (ht =? 1) || (ht =? 2) || (ht =? 3) || (ht =? 129) || (ht =? 130) || (ht =? 131).
+
+(* None = the signature is invalid whatever the key; Some (sig64, hash_type) otherwise.  The two
+   clauses "sig[64] != 0x00" and "SigMsg is defined for hash_type" are merged: a 65-byte signature
+   is well-formed iff its last byte is one of 01 02 03 81 82 83 *)
 Definition taproot_sig_hash_type (sg : bytes) : option (bytes * Z) :=
   if (length sg =? 64)%nat then Some (sg, 0)
   else if (length sg =? 65)%nat then
     let ht := last sg 0 in
-    if ht =? 0 then None else Some (removelast sg, ht)
+    if taproot_explicit_hash_type ht then Some (removelast sg, ht) else None
   else None.
 
 (* None for the empty signature *)
